@@ -278,6 +278,10 @@ struct Solved {
 }
 
 fn solve(t: &Tree, par: &Value, budget: u64) -> Result<Solved, String> {
+    solve_k(t, par, budget, 1)
+}
+
+fn solve_k(t: &Tree, par: &Value, budget: u64, threads: usize) -> Result<Solved, String> {
     let t2 = t.clone();
     let par = par.clone();
     util::catch(move || {
@@ -285,7 +289,7 @@ fn solve(t: &Tree, par: &Value, budget: u64) -> Result<Solved, String> {
         let dump = game.verif_dump();
         verif::reset();
         let (strat, bound) = game
-            .solve(cfr::method("Full"), budget, 0.0, 1, Some(cfr::params(&par)))
+            .solve(cfr::method("Full"), budget, 0.0, threads, Some(cfr::params(&par)))
             .map_err(|e| format!("solve: {e:?}"))?;
         let dense = strat.verif_dense();
         let mut named: Named = [BTreeMap::new(), BTreeMap::new()];
@@ -494,6 +498,24 @@ pub fn replay(args: &Args) {
                         compare_solves(kind, c, &x, &y, tol, &format!("{name} T={b}"), &mut bad);
                     }
                     (x, y) => bad.push(json!({"class": "panic", "what": "solve failed or panicked", "run": format!("{name} T={b}"),
+                        "original": x.err(), "transformed": y.err()})),
+                }
+            }
+        }
+        // ---- the same relation with two threads (the parallel decomposition treats the two players' nodes by different
+        // code; generic payoffs, short budgets: summation order only)
+        {
+            let (mut ha, mut hb) = (t.clone(), t2.clone());
+            genericise(&mut ha, &mut hb, kind, c, &mut rng);
+            for (bi, b) in [3u64, 10].into_iter().enumerate() {
+                let name = PRESETS[(id as usize + bi + 1) % 5];
+                let par = cfr::preset(name);
+                match (solve_k(&ha, &par, b, 2), solve_k(&hb, &par, b, 2)) {
+                    (Ok(x), Ok(y)) => {
+                        runs += 1;
+                        compare_solves(kind, c, &x, &y, 1e-9, &format!("{name} T={b} two threads"), &mut bad);
+                    }
+                    (x, y) => bad.push(json!({"class": "panic", "what": "solve failed or panicked", "run": format!("{name} T={b} two threads"),
                         "original": x.err(), "transformed": y.err()})),
                 }
             }
